@@ -92,6 +92,17 @@ Backend(t) == /\ pc[t] = "wait"
               /\ pc' = [pc EXCEPT ![t] = "reset"]
               /\ Log("b", t) /\ UNCHANGED <<prog, alive, fb, fbs, fj>>
 
+\* the destination accepts, and the client's connection breaks while the proxy completes the
+\* switch (JoinGame has arrived, the old backend is detached, the client is being told): the
+\* switch fails and the player is gone
+BackendBreak(t) == /\ AllowQuit /\ pc[t] = "wait" /\ alive /\ fb # "run"
+                   /\ prog[t].beh \in {"accept", "stall"}
+                   /\ \A u \in Threads : pc[u] # "checked"
+                   /\ alive' = FALSE /\ cur' = "none"
+                   /\ out' = [out EXCEPT ![t] = "fail"]
+                   /\ pc' = [pc EXCEPT ![t] = "reset"]
+                   /\ Log("x", t) /\ UNCHANGED <<prog, inflight, live, fb, fbs, fj>>
+
 \* err != nil (refuse, hang) skips connect()'s clear; a disconnect result runs it
 NeedsClear(t) == \/ (prog[t].api = "connect" /\ out[t] = "fail" /\ prog[t].beh \in {"kicklogin", "kickmid"})
                  \/ (prog[t].api = "indication" /\ out[t] = "fail")
@@ -153,7 +164,7 @@ FjInstall == /\ fj \in {"acked", "early"} /\ fj' = IF fj = "early" THEN "lost" E
 FjJoin == fj = "installed" /\ fj' = "joined" /\ h' = Append(h, [k |-> "first", t |-> "joingame"]) /\ FjVars
 First == FjAck \/ FjEarly \/ FjInstall \/ FjJoin
 
-Next == First \/ Kick \/ Quit \/ Fallback \/ \E t \in Threads : Check(t) \/ Set(t) \/ Dial(t) \/ Backend(t) \/ Reset(t) \/ Clear(t)
+Next == First \/ Kick \/ Quit \/ Fallback \/ \E t \in Threads : Check(t) \/ Set(t) \/ Dial(t) \/ Backend(t) \/ BackendBreak(t) \/ Reset(t) \/ Clear(t)
 Spec == Init /\ [][Next]_vars
 
 ----------------------------------------------------------------------------
